@@ -438,16 +438,22 @@ Fixpoint list_eqb {A} (eqb : A -> A -> bool) (l1 l2 : list A) : bool :=
    location); the real collector is C01's subject — here it is a parameter. *)
 Definition addr := nat.
 Record gobj := mkObj { payload : Z; fields : list addr }.
-Definition heap := addr -> option gobj.
+Definition heap := list (addr * gobj).           (* newest binding of an address first *)
+
+Fixpoint hget (h : heap) (a : addr) : option gobj :=
+  match h with
+  | [] => None
+  | (x, o) :: t => if Nat.eqb a x then Some o else hget t a
+  end.
 Definition roots := list (option addr).
 Definition path := (nat * list nat)%type.       (* root slot, then field indices *)
 
-Definition upd (h : heap) (a : addr) (o : gobj) : heap := fun x => if Nat.eqb x a then Some o else h x.
+Definition upd (h : heap) (a : addr) (o : gobj) : heap := (a, o) :: h.
 
 Fixpoint deref_from (h : heap) (a : addr) (is : list nat) : option addr :=
   match is with
   | [] => Some a
-  | i :: r => match h a with
+  | i :: r => match hget h a with
               | Some o => match nth_error (fields o) i with
                           | Some b => deref_from h b r
                           | None => None
@@ -507,12 +513,12 @@ Definition gstep (s : gstate) (o : gop) : gstate * gout :=
     end
   | GRead p =>
     match deref h rs p with
-    | Some a => match h a with Some ob => (s, GVal (payload ob)) | None => (s, GBad) end
+    | Some a => match hget h a with Some ob => (s, GVal (payload ob)) | None => (s, GBad) end
     | None => (s, GBad)
     end
   | GWrite p v =>
     match deref h rs p with
-    | Some a => match h a with
+    | Some a => match hget h a with
                 | Some ob => (mkG (upd h a (mkObj v (fields ob))) rs (gnext s), GUnit)
                 | None => (s, GBad)
                 end
@@ -520,7 +526,7 @@ Definition gstep (s : gstate) (o : gop) : gstate * gout :=
     end
   | GSetField p i q =>
     match deref h rs p, deref h rs q with
-    | Some a, Some b => match h a with
+    | Some a, Some b => match hget h a with
                         | Some ob => (mkG (upd h a (mkObj (payload ob) (set_field (fields ob) i b))) rs (gnext s), GUnit)
                         | None => (s, GBad)
                         end
@@ -545,6 +551,15 @@ Fixpoint grun (gc : bool) (collect : nat -> heap -> roots -> heap) (n : nat) (op
     let '(s1, out) := gstep s0 o in
     let '(s2, outs) := grun gc collect (S n) r s1 in (s2, out :: outs)
   end.
+
+(* a concrete (weak but real) collector: one sweep that frees every object that is neither in a register
+   nor pointed to by a field of any heap entry *)
+Definition is_root (rs : roots) (a : addr) : bool :=
+  existsb (fun r => match r with Some x => Nat.eqb x a | None => false end) rs.
+Definition pointed (h : heap) (a : addr) : bool :=
+  existsb (fun e : addr * gobj => existsb (Nat.eqb a) (fields (snd e))) h.
+Definition sweep_unreferenced (h : heap) (rs : roots) : heap :=
+  filter (fun e : addr * gobj => is_root rs (fst e) || pointed h (fst e)) h.
 
 
 Definition grun_cfg (c : config) := grun (gc c).
